@@ -648,6 +648,28 @@ def ctx_truth(prog: Program, rep: Report):
             else:
                 key = st.targets[0].slice.value if isinstance(st.targets[0].slice, ast.Constant) else "?"
                 items = [(str(key), v)]
+            # a recorded extent (og_h / og_w / anything that comes from get_image_size(..) / get_dimensions(..)) is measured on the
+            # image the operation is applied to - the same version of the variable, not the result of the operation
+            for key, val in items:
+                if not isinstance(val, ast.Name):
+                    continue
+                for d in cfg.reaching().get(n, {}).get(val.id, ()):
+                    dn = cfg.nodes[d]
+                    meas = [y for y in ast.walk(dn.ast) if dn.ast is not None and isinstance(y, ast.Call)
+                            and (_n(y.func) or getattr(y.func, "attr", "")) in ("get_image_size", "get_dimensions")
+                            and y.args and isinstance(y.args[0], ast.Name)] if dn.kind == "stmt" else []
+                    for y in meas:
+                        img = y.args[0].id
+                        v_meas = cfg.reaching().get(d, {}).get(img)
+                        for on, oc, nm in ops:
+                            if oc.args and isinstance(oc.args[0], ast.Name) and oc.args[0].id == img:
+                                v_op = cfg.reaching().get(on, {}).get(img)
+                                rep.decide(v_meas == v_op, "G9.ctx-truth", fi, f"ctx:{key}:measured-image",
+                                           f"'{key}' is measured on the image that {nm} is applied to",
+                                           f"ctx records '{key}' measured on '{img}' at line {dn.lineno}, but {nm} (line {oc.lineno}) is "
+                                           f"applied to another version of '{img}' (the image was re-bound in between): the recorded "
+                                           f"size is not the size of the image the recorded window refers to", line=dn.lineno,
+                                           clause="C14.2", nontrivial=False)
             for key, val in items:
                 n_keys += 1
                 construct = f"ctx:{key}"
